@@ -1,4 +1,5 @@
 import DarkluaModel.Shared.VisitorSound.Heap.HSteps
+import DarkluaModel.Shared.VisitorSound.Heap.General
 import DarkluaModel.Shared.VisitorSound
 /-!
 # Stage 3: lifting for rules that change the allocation pattern (cells)
